@@ -63,6 +63,13 @@ PROPS = {
                        + ob("UcantoModel.Props.Termination", "V.terminates_all", "V.access_terminates", "V.C06_found"),
         "rule": WORLD_RULE, "trusted_base": VALIDATOR_TRUSTED,
     },
+    "C08": {
+        "manifest": {"text": "Theorems on the model of server.Run + Provide: C08_iff (the handler runs iff the invocation has exactly one capability, a method is registered for its ability and Access authorizes it; it receives the authorized capability), C08_at_most_once, C08_args (that capability is the invocation's own capability as parsed by the method's descriptor), C08_unauthorized, C08_capability_count, C08_not_found (the three refusal receipts, nothing runs), C08_only_authorized (behind every call there is a complete valid chain, by C01). Correspondence through the real server: client.Execute of batches of 1-4 invocations (shared proofs, unhandled abilities, zero/two capabilities, strangers) against recording handlers returning ok / ok+effects / error, with can-issue policy, revocation checker, proof and key resolvers set through the server options; compared: receipt outcome per invocation and the exact handler call log.", "design_ref": "5.8", "note": VALIDATOR_NOTE},
+        "obligations": ob("UcantoModel.Props.C08", "Srv.C08_iff", "Srv.C08_at_most_once", "Srv.C08_args", "Srv.C08_unauthorized", "Srv.C08_capability_count", "Srv.C08_not_found", "Srv.C08_only_authorized"),
+        "mismatch_is_violation": True,
+        "rule": WORLD_RULE + "; each world becomes a request of 1-4 invocations against a server with 1-2 recording service methods", "trusted_base": VALIDATOR_TRUSTED,
+        "assumptions": ["a model/implementation difference in receipt outcome or handler call log is itself a failing input: the model's run is proved to satisfy the property's iff"],
+    },
     "C16": {
         "manifest": {"text": "Lean theorems over all byte strings: resolveAbility/resolveResource/defaultDerives of the model equal the property's three grant relations (resolveAbility_spec, resolveResource_spec, defaultDerives_spec, plus no_partial_segment / only_three_forms); the model is tied to the Go functions by exhaustive enumeration of all string pairs over {a,b,A,/,*,:} up to total length 7 (quick) / 8 (thorough) plus random realistic strings, so any divergence of the code from the proved specification inside that space is a concrete failing pair.",
                      "design_ref": "5.16",
